@@ -123,7 +123,9 @@ class FrameParser(Parser):
             and (frame.is_text or frame.is_continuation)
         ):
             self._utf8_validator.reset()
-        if frame.fin:
+        if frame.fin and not frame.is_control:
+            # Only the final data frame ends a text message, control
+            # frames may be injected between its fragments
             self._is_text = False
 
 
